@@ -143,7 +143,8 @@ def m_apply(tab, steps, model, prefix_fn=None):
                 for rr in right["rows"]:
                     if all(lr[c] == rr[c] for c in on):
                         o = dict(rr)
-                        o.update(lr)
+                        # common non-key columns are coalesced: the left value, or the right one where the left is null
+                        o.update({k_: v_ for k_, v_ in lr.items() if v_ is not None or k_ not in rr})
                         rows.append(o)
             tab = {"cols": ncols, "rows": rows}
         elif t == "concat_self":
@@ -252,13 +253,17 @@ def table_to_frame(spec, replica: str):
 
         data = {}
         for c in spec["cols"]:
-            data[c["name"]] = pl.Series(c["name"], list(c["values"]), dtype=pl.Int64 if c["type"] == "i" else pl.String)
+            dt = {"i": pl.Int64, "s": pl.String, "f": pl.Float64}[c["type"]]
+            data[c["name"]] = pl.Series(c["name"], list(c["values"]), dtype=dt)
         return pl.DataFrame(data)
     import pandas as pd
 
     data = {}
     for c in spec["cols"]:
-        data[c["name"]] = pd.Series(list(c["values"]), dtype="int64" if c["type"] == "i" else "str")
+        if c["type"] == "f":
+            data[c["name"]] = pd.Series([float("nan") if v is None else v for v in c["values"]], dtype="float64")
+        else:
+            data[c["name"]] = pd.Series(list(c["values"]), dtype="int64" if c["type"] == "i" else "str")
     return pd.DataFrame(data)
 
 
@@ -279,6 +284,9 @@ def _gen_table(rd, shape) -> Dict[str, Any]:
         cols.append({"name": "g", "type": "s", "values": [rd.choice(gv) for _ in range(n)]})
     if shape in (2, 3):
         cols.append({"name": "y", "type": "i", "values": [rd.randrange(0, 9) for _ in range(n)]})
+    if rd.random() < 0.3:
+        # a payload column with nulls that pipelines only carry along (select / drop / rename / join coalescing), never compute on
+        cols.append({"name": "p", "type": "f", "values": [None if rd.random() < 0.4 else rd.randrange(-4, 9) / 2.0 for _ in range(n)]})
     return {"cols": cols}
 
 
@@ -322,7 +330,9 @@ def _gen_steps(r, cols: Dict[str, str], belief, depth=0, allow_join=True, only=N
                 steps.append({"t": "rename", "map": {new: old}})
                 cols[new] = cols.pop(old)
         elif kind == "project" and ints:
-            by_c = [c for c in ("k", "g") if c in cols] or names[:1]
+            by_c = [c for c in ("k", "g") if c in cols] or [c for c in names if cols[c] != "f"][:1]
+            if not by_c:
+                continue
             by = [r.choice(by_c)]
             cand = [c for c in ints if c not in by]
             aggs = {}
